@@ -673,6 +673,10 @@ M('c04-cmp-result-narrowed', 'C04', 'src/containers/qtreetbl.c',
   "        int cmp = tbl->compare(name, namesize, obj->name, obj->namesize);\n        if (cmp == 0) {\n            break;\n        }\n        lastobj = obj;",
   "        int8_t cmp = tbl->compare(name, namesize, obj->name, obj->namesize);\n        if (cmp == 0) {\n            break;\n        }\n        lastobj = obj;",
   'T15', 'qtreetbl_find_nearest', 'the comparator result is held in an int8_t')
+M('c17-aconf-close-check-late', 'C17', 'src/extensions/qaconf.c',
+  "            if (cbdata_parent == NULL\n                    || cmpfunc(cbdata->argv[0], cbdata_parent->argv[0])) {",
+  "            if (cbdata_parent != NULL\n                    && cmpfunc(cbdata->argv[0], cbdata_parent->argv[0])) {",
+  'NC1', '_parse_inline', 'a stray section close at the top level is no longer refused before the close callback dereferences the parent')
 M('c11-borrowed-name-freed', 'C11', 'src/containers/qhashtbl.c',
   "    char *dupname = strdup(name);\n    void *dupdata = malloc(size);",
   "    char *dupname = (obj != NULL) ? obj->name : strdup(name);\n    void *dupdata = malloc(size);",
